@@ -63,6 +63,17 @@ class ReplayInvalid(Exception):
     pass
 
 
+class Ghost:
+    """a stand-in `self`: only the attributes the method under contract may read; anything
+    else raises AttributeError (=> the obligation fails loudly, a frame violation)"""
+
+    def __init__(self, **kw):
+        self.__dict__.update(kw)
+
+    def __repr__(self):
+        return "Ghost(%s)" % ", ".join(sorted(self.__dict__))
+
+
 class Contract:
     def __init__(self, prop, target, fn, name=None, tier="quick", raises=(), timeout=None, max_paths=4096, kind="proof", note="", budget=None):
         self.budget = budget
@@ -303,6 +314,19 @@ class H:
         if self.mode == "sym":
             return mirror.get(qualname)
         return mirror.get_real(qualname)
+
+    def method(self, qualname):
+        """the plain function behind a method / property / cached property of a repository
+        class (mirrored or real), to be called on a ghost `self`: modular verification of
+        the method body against the contracts of what it reads from self"""
+        obj = self.fn(qualname)
+        if isinstance(obj, property):
+            obj = obj.fget
+        seen = 0
+        while hasattr(obj, "__wrapped__") and seen < 5:
+            obj = obj.__wrapped__
+            seen += 1
+        return obj
 
     def module(self, modname):
         if self.mode == "sym":
